@@ -349,6 +349,10 @@ TEMPLATES = [
     Tpl("tablespace-datafile", "CREATE TABLESPACE {T} DATAFILE {0} SIZE 10m;", "option"),
     Tpl("hql-comments", "CREATE TABLE {T} (\n    a int COMMENT {0}\n)\nCOMMENT {1}\nPARTITIONED BY (p string COMMENT {2})\nSTORED AS ORC;", "comment", ("sql", "hql")),
     Tpl("with-tag", "CREATE TABLE {T} (\n    a int\n) WITH TAG (x={0});", "option", ("sql", "snowflake")),
+    # string-valued options of the smaller dialect grammars
+    Tpl("escaped-by", "CREATE EXTERNAL TABLE {T} (\n    a string\n)\nROW FORMAT DELIMITED\n  FIELDS TERMINATED BY {0}\n  ESCAPED BY {1}\n  LINES TERMINATED BY {2};", "option", ("sql", "hql", "athena")),
+    Tpl("snowflake-catalog", "CREATE ICEBERG TABLE {T} (\n    a int\n) CATALOG = {0};", "option", ("sql", "snowflake")),
+    Tpl("snowflake-pattern", "CREATE EXTERNAL TABLE {T} (\n    a int\n)\n  LOCATION = @sch.stage/x/\n  AUTO_REFRESH = false\n  PATTERN = {0};", "option", ("sql", "snowflake")),
 ]
 
 
